@@ -449,7 +449,7 @@ class FieldStorage:
         if self.name is None:
             raise BodyParsingError(f'Noname field found while parsing multipart/formdata body: {headers_raw}')
 
-        if self.filename is not None:
+        if self.filename:
             self.file = BytesIOProxy(src, *data_section)
         else:
             start, end = data_section
